@@ -218,8 +218,22 @@ def _big_stack():
         pass
 
 
-def _pipe(cmd, lines, env=None, big_stack=False):
-    """feed `lines` to a line-protocol process; return (answers, returncode)"""
+# a single request that keeps a line-protocol process silent for this long is a hang: the process is killed and the
+# request is answered `crash rc=hang` (so that a change which makes the compiler loop is reported, not waited for)
+# Once requests have hung, later ones are given less time (300, 120, 60, 30, 30, ... seconds), so that a change which
+# makes many inputs loop still ends the check in minutes; only a run that already reports hangs is affected.
+STALL_SECONDS = float(os.environ.get("VERIF_STALL", "300"))
+_HANGS = [0]
+
+
+def stall_now():
+    n = _HANGS[0]
+    return max(30.0, STALL_SECONDS / (1, 2.5, 5)[min(n, 2)]) if n < 3 else 30.0
+
+
+def _pipe(cmd, lines, env=None, big_stack=False, stall=None):
+    """feed `lines` to a line-protocol process; return (answers, returncode); returncode is "hang" when the process
+    was killed after `stall` seconds without output"""
     p = subprocess.Popen(cmd, stdin=subprocess.PIPE, stdout=subprocess.PIPE, stderr=subprocess.DEVNULL, env=env,
                          preexec_fn=_big_stack if big_stack else None)
     data = ("\n".join(lines) + "\n").encode("utf-8", "surrogateescape")
@@ -232,12 +246,34 @@ def _pipe(cmd, lines, env=None, big_stack=False):
             pass
     th = threading.Thread(target=feed)
     th.start()
-    out = p.stdout.read()
+    hung = False
+    if stall is None:
+        out = p.stdout.read()
+    else:
+        import select
+        chunks = []
+        fd = p.stdout.fileno()
+        while True:
+            ready, _, _ = select.select([fd], [], [], stall)
+            if not ready:
+                hung = True
+                p.kill()
+                break
+            b = os.read(fd, 1 << 16)
+            if not b:
+                break
+            chunks.append(b)
+        out = b"".join(chunks)
     th.join()
     rc = p.wait()
+    if hung:
+        rc = "hang"
+        _HANGS[0] += 1
     answers = out.decode("utf-8", "replace").split("\n")
     if answers and answers[-1] == "":
         answers.pop()
+    elif hung and answers:
+        answers.pop()          # a partially written line
     return answers, rc
 
 
@@ -247,7 +283,7 @@ def run_harness_serial(lines):
     answers = []
     rest = list(lines)
     while rest:
-        got, rc = _pipe([HARNESS_BIN], rest, env=env_for_cargo())
+        got, rc = _pipe([HARNESS_BIN], rest, env=env_for_cargo(), stall=stall_now())
         if len(got) >= len(rest):
             answers.extend(got[:len(rest)])
             break
@@ -276,13 +312,25 @@ class _Worker:
         try:
             self.p.stdin.write((line + "\n").encode("utf-8", "surrogateescape"))
             self.p.stdin.flush()
-            ans = self.p.stdout.readline()
+            hung = []
+            proc = self.p
+
+            def kill():
+                hung.append(1)
+                _HANGS[0] += 1
+                proc.kill()
+            timer = threading.Timer(stall_now(), kill)
+            timer.start()
+            try:
+                ans = self.p.stdout.readline()
+            finally:
+                timer.cancel()
         except (BrokenPipeError, OSError):
             ans = b""
         if not ans.endswith(b"\n"):
             rc = self.p.wait()
             self.p = None
-            return "crash rc=%s" % rc
+            return "crash rc=%s" % ("hang" if hung else rc)
         return ans[:-1].decode("utf-8", "replace")
 
     def close(self):
